@@ -158,9 +158,13 @@ func Parse(s string) (*DPoP, error) {
 	}
 	if v, ok := token.Get(HTUKey); !ok || v == "" {
 		return nil, fmt.Errorf("%w: missing htu claim", ErrInvalidDPoP)
+	} else if _, isString := v.(string); !isString {
+		return nil, fmt.Errorf("%w: invalid htu claim", ErrInvalidDPoP)
 	}
 	if v, ok := token.Get(HTMKey); !ok || v == "" {
 		return nil, fmt.Errorf("%w: missing htm claim", ErrInvalidDPoP)
+	} else if _, isString := v.(string); !isString {
+		return nil, fmt.Errorf("%w: invalid htm claim", ErrInvalidDPoP)
 	}
 	if token.JwtID() == "" {
 		return nil, fmt.Errorf("%w: missing jti claim", ErrInvalidDPoP)
@@ -192,7 +196,9 @@ func jwkIsPrivateKey(jwk jwk.Key) bool {
 // HTU returns the htu claim of the DPoP token
 func (t DPoP) HTU() string {
 	if v, ok := t.Token.Get(HTUKey); ok {
-		return v.(string)
+		if s, isString := v.(string); isString {
+			return s
+		}
 	}
 	return ""
 }
@@ -200,7 +206,9 @@ func (t DPoP) HTU() string {
 // HTM returns the htm claim of the DPoP token
 func (t DPoP) HTM() string {
 	if v, ok := t.Token.Get(HTMKey); ok {
-		return v.(string)
+		if s, isString := v.(string); isString {
+			return s
+		}
 	}
 	return ""
 }
@@ -230,7 +238,11 @@ func (t DPoP) Match(jkt string, method string, url string) (bool, error) {
 }
 
 func strip(raw string) string {
-	url, _ := url.Parse(raw)
+	url, err := url.Parse(raw)
+	if err != nil {
+		// not a URL: compare as-is
+		return raw
+	}
 	url.Scheme = "https"
 	url.Host = strings.Split(url.Host, ":")[0]
 	url.RawQuery = ""
